@@ -287,7 +287,14 @@ func (handler *Handler) ProxyClientConnection(ctx context.Context, errCh chan<- 
 		handler.dbConnection.SetWriteDeadline(time.Now().Add(network.DefaultNetworkTimeout))
 		if firstPacket {
 			firstPacket = false
-			handler.Capabilities.SetClientCapabilities(packet.getClientCapabilities(), packet.getClientExtendedMariaDBCapabilities())
+			clientCapabilities, err := packet.getClientCapabilities()
+			if err != nil {
+				clientLog.WithError(err).WithField(logging.FieldKeyEventCode, logging.EventCodeErrorProtocolProcessing).
+					Errorln("Can't read capabilities from handshake response packet")
+				errCh <- base.NewClientProxyError(err)
+				return
+			}
+			handler.Capabilities.SetClientCapabilities(clientCapabilities, packet.getClientExtendedMariaDBCapabilities())
 
 			if handler.Capabilities.IsSetMariaDBClientExtendedTypeInfo() {
 				handler.logger.Debugf("MARIADB_CLIENT_EXTENDED_TYPE_INFO flag SET")
@@ -997,7 +1004,13 @@ func (handler *Handler) ProxyDatabaseConnection(ctx context.Context, errCh chan<
 			continue
 		case stateFirstPacket:
 			state = stateServe
-			serverCapabilities := packet.getServerCapabilities()
+			serverCapabilities, err := packet.getServerCapabilities()
+			if err != nil {
+				serverLog.WithError(err).WithField(logging.FieldKeyEventCode, logging.EventCodeErrorProtocolProcessing).
+					Errorln("Can't read capabilities from handshake packet")
+				errCh <- base.NewDBProxyError(err)
+				return
+			}
 			handler.Capabilities.SetServerCapabilities(serverCapabilities, packet.getExtendedMariaDBCapabilities())
 
 			serverLog.Debugf("Set DB support protocol 41 %v", serverCapabilities)
